@@ -55,6 +55,7 @@ def run(tier, seed):
     outcome = {}
     try:
         jobs = []
+        dry_files = {}
         for si, (name, case) in enumerate(scen):
             d = sysutil.prepare_dir(base, 'dry%d' % si, case, {})
             rc, res, sl, err = sysutil.sysrun(exe, case, d, {'mode': 'count'})
@@ -62,6 +63,7 @@ def run(tier, seed):
                 tr = runner.triage(err, rc) or ('exit-%s' % rc, 'unknown-frame', err[-1500:])
                 vs.append(Violation(PROP, '%s:dry-run:%s' % (PROP, tr[0]), 'scenario %s failed / threw without any fault injected' % name, {'case': case, 'report': tr[2]}))
                 continue
+            dry_files[si] = sysutil.final_files(d, case)
             ws = [e for e in sl if e['call'] in ('write', 'writev')]
             for e in ws:
                 if out_id(e['path'], case['id']) == 'rec':
@@ -112,7 +114,14 @@ def run(tier, seed):
             # (A) some call from the fault up to and including the rotation that closes X (returning normally) threw
             closing = next((j for j in range(i_f, len(log)) if log[j]['op'] in ('rotate', 'rotate_retry') and log[j].get('closes') == X and 'exc' not in log[j]), None)
             reported = any('exc' in log[j] for j in range(i_f, (closing if closing is not None else len(log) - 1) + 1))
-            if closing is not None and not reported:
+            lost = True
+            if not excs:
+                # nothing threw, so the run made the same calls as the fault-free one: the output lost bytes iff its content differs
+                fnX = [f for f in files if out_id(f, case['id']) == X]
+                lost = not fnX or any(files[f] != dry_files[si].get(f[:-5] if f.endswith('.part') else f) for f in fnX)
+                if not lost:
+                    outcome['fault-absorbed-no-bytes-lost'] = outcome.get('fault-absorbed-no-bytes-lost', 0) + 1
+            if closing is not None and not reported and lost:
                 phase = 'block-data' if during in BUF_OPS else 'inside-rotate'
                 vs.append(Violation(PROP, '%s:swallowed:%s:%s:%s' % (PROP, kind, comp, phase),
                                     'scenario %s: write %d to output %s %s (%s), yet no API call threw up to and including the rotate_output that closed it' % (name, pl['k'], X, 'failed with ' + pl['err'] if pl['err'] != 'short' else 'was cut short', how),
@@ -126,6 +135,10 @@ def run(tier, seed):
                 origin = log[first]['op']
                 rec_rot = [e for e in log if e.get('phase') == 'recover' and e['op'] in ('rotate', 'rotate_retry')]
                 rec_ok = any('exc' not in e for e in rec_rot)
+                told_before = any('exc' in e for e in log if e.get('phase') == 'main')
+                if told_before and rec_rot and 'exc' in rec_rot[0] and rec_ok:
+                    vs.append(Violation(PROP, '%s:recovery-rotate-threw-again:%s:%s:%s' % (PROP, kind, comp, how), 'scenario %s: the failure had been reported by %s, yet the following rotate_output to a healthy destination threw (%s) and only its repetition succeeded' % (name, origin, rec_rot[0].get('what')), payload))
+                    continue
                 wb = [e for e in log if e.get('phase') == 'recover' and e['op'] == 'wb']
                 if not rec_ok:
                     vs.append(Violation(PROP, '%s:recovery-rotate-failed:%s:%s:%s' % (PROP, kind, comp, how), 'scenario %s: after the failure, rotate_output to a healthy destination threw (twice): %s' % (name, [e.get('what') for e in rec_rot][:2]), payload))
